@@ -97,15 +97,16 @@ Section Modes.
       rewrite IH. cbn [unrolls]. rewrite <- app_assoc. do 3 f_equal. lia.
   Qed.
 
-  Theorem bmc_loop_modes en :
-    (forall n, script_check [] (script v en 0 n) = true) ->
+  Theorem bmc_loop_modes_gen en (scr : nat -> list cmd) :
+    (forall i, scr (S i) = scr i ++ unroll v en 0 (N.of_nat i)) ->
+    (forall n, script_check [] (scr n) = true) ->
     (forall k bs, signals_at en (s_bads (e_sys en)) k = Some bs -> bool_valued bs) ->
     s_bads (e_sys en) <> [] ->
     forall fuel i asserts,
-      bmc_loop v solver_sat en true (script v en 0 i) asserts (N.of_nat i) fuel =
-      bmc_loop v solver_sat en false (script v en 0 i) asserts (N.of_nat i) fuel.
+      bmc_loop v solver_sat en true (scr i) asserts (N.of_nat i) fuel =
+      bmc_loop v solver_sat en false (scr i) asserts (N.of_nat i) fuel.
   Proof.
-    intros Hck Hbool Hne. induction fuel as [|fuel IH]; intros i asserts; cbn [bmc_loop];
+    intros HS Hck Hbool Hne. induction fuel as [|fuel IH]; intros i asserts; cbn [bmc_loop];
       destruct (signals_at en (s_constraints (e_sys en)) (N.of_nat i)) as [cs|]; try reflexivity;
       destruct (signals_at en (s_bads (e_sys en)) (N.of_nat i)) as [bs|] eqn:Eb; try reflexivity.
     all: assert (Hor : exists any, or_all bs = Some any)
@@ -115,11 +116,21 @@ Section Modes.
       destruct Hor as (any & Hany); rewrite Hany;
       rewrite (query_modes _ _ bs any (Hck i) Hany (Hbool _ _ Eb)).
     - reflexivity.
-    - destruct (solver_sat (script v en 0 i) (asserts ++ cs) [any]); [reflexivity|].
-      replace (script v en 0 i ++ unroll v en 0 (N.of_nat i)) with (script v en 0 (S i)).
-      + replace (N.of_nat i + 1) with (N.of_nat (S i)) by lia. apply IH.
-      + unfold script. rewrite unrolls_snoc, app_assoc. now rewrite N.add_0_l.
+    - destruct (solver_sat (scr i) (asserts ++ cs) [any]); [reflexivity|].
+      rewrite <- HS. replace (N.of_nat i + 1) with (N.of_nat (S i)) by lia. apply IH.
   Qed.
+
+  Lemma script_S en i : script v en 0 (S i) = script v en 0 i ++ unroll v en 0 (N.of_nat i).
+  Proof. unfold script. rewrite unrolls_snoc, app_assoc. now rewrite N.add_0_l. Qed.
+
+  Theorem bmc_loop_modes en :
+    (forall n, script_check [] (script v en 0 n) = true) ->
+    (forall k bs, signals_at en (s_bads (e_sys en)) k = Some bs -> bool_valued bs) ->
+    s_bads (e_sys en) <> [] ->
+    forall fuel i asserts,
+      bmc_loop v solver_sat en true (script v en 0 i) asserts (N.of_nat i) fuel =
+      bmc_loop v solver_sat en false (script v en 0 i) asserts (N.of_nat i) fuel.
+  Proof. intros Hck. apply (bmc_loop_modes_gen en (script v en 0) (script_S en) Hck). Qed.
 End Modes.
 
 (** The exactness of the loop with respect to reachability ([bmc_model_exact]) is proved in Proofs/BmcSound.v. *)
@@ -204,7 +215,19 @@ Section NoMiss.
   Hypothesis Hwf : sys_wf sy = true.
   Hypothesis Hn : names_ok (enc_new sy nm) = true.
   Let en := enc_new sy nm.
-  Hypothesis Hck : forall n, script_check [] (script v en 0 n) = true.
+  (** the script after [n] unrollings, accepted and faithful ([script v en 0 n], or [script3 en n]) *)
+  Variable scr : nat -> list cmd.
+  Hypothesis Hscr_S : forall i, scr (S i) = scr i ++ unroll v en 0 (N.of_nat i).
+  Hypothesis Hck : forall n, script_check [] (scr n) = true.
+  Hypothesis Hfaithful : forall (rho0 : env) (frees : list env) (sigma0 : env), is_initial sy rho0 ->
+    let n := length frees in
+    let sc := scr n in
+    let trace := run_from sy rho0 frees in
+    script_check [] sc = true ->
+    (forall nm' t e k, In (DeclareConst nm' t) sc -> k <= N.of_nat n ->
+        sig_sym en e k = Some (mk_sym nm' t) -> same_val sigma0 (mk_sym nm' t) (nth (N.to_nat k) trace env0) e) ->
+    forall e k s, observable sy e -> k <= N.of_nat n -> get_signal_at en e k = Some s ->
+      same_val (script_eval sigma0 sc) s (nth (N.to_nat k) trace env0) e.
 
   (** at the depth of a counterexample the query of some bad state is satisfiable *)
   Lemma reached_is_sat i rho0 frees asserts bs :
@@ -215,7 +238,7 @@ Section NoMiss.
     (forall a, In a asserts -> exists c m, In c (s_constraints sy) /\ (m <= i)%nat /\
                                            get_signal_at en c (N.of_nat m) = Some a) ->
     signals_at en (s_bads sy) (N.of_nat i) = Some bs ->
-    existsb (fun b => solver_sat (script v en 0 i) asserts [b]) bs = true.
+    existsb (fun b => solver_sat (scr i) asserts [b]) bs = true.
   Proof.
     intros Hlen Hinit Hwfr Hcons Hbad Hass Hbs.
     pose proof (enc_new_basic sy nm Hwf) as Hb. fold en in Hb.
@@ -226,17 +249,18 @@ Section NoMiss.
     assert (Hw0 : env_wf sigma0) by (apply (tau_of_wf en Hb); assumption).
     (* the values of the observable signals under the evaluated script *)
     assert (Hfaith : forall e k s, observable sy e -> (k <= i)%nat -> get_signal_at en e (N.of_nat k) = Some s ->
-               same_val (script_eval sigma0 (script v en 0 i)) s (nth k trace env0) e).
+               same_val (script_eval sigma0 (scr i)) s (nth k trace env0) e).
     { intros e k s Hobs Hk Hg.
-      pose proof (faithful_final sy nm v 0 rho0 frees sigma0 Hwf Hn (fun _ => Hinit)) as F.
-      cbn zeta in F. rewrite Hlen in F. fold en trace in F.
+      pose proof (Hfaithful rho0 frees sigma0 Hinit) as F.
+      cbn zeta in F. rewrite Hlen in F. fold trace in F.
       specialize (F (Hck i)).
-      assert (Hd : forall nm' t e0 k0, In (DeclareConst nm' t) (script v en 0 i) -> 0 <= k0 <= 0 + N.of_nat i ->
+      assert (Hd : forall nm' t e0 k0, In (DeclareConst nm' t) (scr i) -> k0 <= N.of_nat i ->
                      sig_sym en e0 k0 = Some (mk_sym nm' t) ->
-                     same_val sigma0 (mk_sym nm' t) (nth (N.to_nat (k0 - 0)) trace env0) e0).
-      { intros nm' t e0 k0 _ Hk0 Hs. apply (tau_spec en Hb 0 i trace Hcoh); [apply in_steps; lia|assumption]. }
+                     same_val sigma0 (mk_sym nm' t) (nth (N.to_nat k0) trace env0) e0).
+      { intros nm' t e0 k0 _ Hk0 Hs. replace (N.to_nat k0) with (N.to_nat (k0 - 0)) by lia.
+        apply (tau_spec en Hb 0 i trace Hcoh); [apply in_steps; lia|assumption]. }
       specialize (F Hd e (N.of_nat k) s Hobs ltac:(lia) Hg).
-      replace (N.to_nat (N.of_nat k - 0)) with k in F by lia. exact F. }
+      replace (N.to_nat (N.of_nat k)) with k in F by lia. exact F. }
     (* some bad state holds at the last step *)
     unfold some_bad in Hbad. apply existsb_exists in Hbad. destruct Hbad as (b & Hbin & Hhb).
     destruct (proj2 (signals_at_spec en _ _ _ Hbs) b Hbin) as (sb & Hsb & Hgb).
@@ -264,7 +288,7 @@ Section NoMiss.
     forall fuel i asserts, (i <= j <= i + fuel)%nat ->
       (forall a, In a asserts -> exists c m, In c (s_constraints sy) /\ (m < i)%nat /\
                                              get_signal_at en c (N.of_nat m) = Some a) ->
-      bmc_loop v solver_sat en true (script v en 0 i) asserts (N.of_nat i) fuel <> BmcSuccess.
+      bmc_loop v solver_sat en true (scr i) asserts (N.of_nat i) fuel <> BmcSuccess.
   Proof.
     intros Hlen Hinit Hwfr Hcons Hbad. induction fuel as [|fuel IH]; intros i asserts Hij Hass; cbn [bmc_loop];
       destruct (signals_at en (s_constraints (e_sys en)) (N.of_nat i)) as [cs|] eqn:Ec; try discriminate;
@@ -276,28 +300,62 @@ Section NoMiss.
             |destruct (proj1 (signals_at_spec en _ _ _ Ec) a Ha) as (c & Hc & Hg); exists c, i; auto]).
     - assert (i = j) by lia. subst i.
       rewrite (reached_is_sat j rho0 frees (asserts ++ cs) bs Hlen Hinit Hwfr Hcons Hbad Hass' Eb). discriminate.
-    - destruct (existsb (fun b => solver_sat (script v en 0 i) (asserts ++ cs) [b]) bs) eqn:Eh; [discriminate|].
+    - destruct (existsb (fun b => solver_sat (scr i) (asserts ++ cs) [b]) bs) eqn:Eh; [discriminate|].
       destruct (Nat.eq_dec i j) as [->|Hne].
       + rewrite (reached_is_sat j rho0 frees (asserts ++ cs) bs Hlen Hinit Hwfr Hcons Hbad Hass' Eb) in Eh. discriminate.
-      + replace (script v en 0 i ++ unroll v en 0 (N.of_nat i)) with (script v en 0 (S i))
-          by (unfold script; rewrite unrolls_snoc, app_assoc; now rewrite N.add_0_l).
+      + rewrite <- Hscr_S.
         replace (N.of_nat i + 1) with (N.of_nat (S i)) by lia.
         apply IH; [lia|]. intros a Ha. destruct (Hass' a Ha) as (c & m & Hc & Hm & Hg). exists c, m. split; [assumption|]. split; [lia|assumption].
   Qed.
 
   (** if a bad state is reachable within the bound, the loop does not answer "success"
       (individual checking; the joint mode gives the same result by [bmc_loop_modes]) *)
-  Theorem bmc_no_miss k_max j : (j <= k_max)%nat -> reach_at sy j ->
-    bmc_model v solver_sat sy nm true k_max <> BmcSuccess.
+  Theorem bmc_no_miss_gen k_max j : (j <= k_max)%nat -> reach_at sy j -> s_bads sy <> [] ->
+    bmc_loop v solver_sat en true (scr 0) [] 0 k_max <> BmcSuccess.
   Proof.
-    intros Hj (trace & (rho0 & frees & -> & Hinit & Hwfr & Hcons) & Hlen & Hbad).
-    rewrite (run_len sy) in Hlen. unfold bmc_model.
-    destruct (s_bads sy) as [|b0 r0] eqn:Eb.
-    - unfold some_bad in Hbad. rewrite Eb in Hbad. discriminate.
-    - pose proof (loop_no_miss j rho0 frees ltac:(lia) Hinit Hwfr Hcons Hbad k_max 0%nat [] ltac:(lia)) as H.
-      unfold script in H. cbn [unrolls] in H. rewrite app_nil_r in H. apply H. intros a [].
+    intros Hj (trace & (rho0 & frees & -> & Hinit & Hwfr & Hcons) & Hlen & Hbad) _.
+    rewrite (run_len sy) in Hlen.
+    apply (loop_no_miss j rho0 frees ltac:(lia) Hinit Hwfr Hcons Hbad k_max 0%nat [] ltac:(lia)). intros a [].
   Qed.
 End NoMiss.
+
+(** the instance [script v] *)
+Lemma faithful_shape sy nm v : sys_wf sy = true -> names_ok (enc_new sy nm) = true ->
+  forall (rho0 : env) (frees : list env) (sigma0 : env), is_initial sy rho0 ->
+    let n := length frees in
+    let sc := script v (enc_new sy nm) 0 n in
+    let trace := run_from sy rho0 frees in
+    script_check [] sc = true ->
+    (forall nm' t e k, In (DeclareConst nm' t) sc -> k <= N.of_nat n ->
+        sig_sym (enc_new sy nm) e k = Some (mk_sym nm' t) -> same_val sigma0 (mk_sym nm' t) (nth (N.to_nat k) trace env0) e) ->
+    forall e k s, observable sy e -> k <= N.of_nat n -> get_signal_at (enc_new sy nm) e k = Some s ->
+      same_val (script_eval sigma0 sc) s (nth (N.to_nat k) trace env0) e.
+Proof.
+  intros Hwf Hn rho0 frees sigma0 Hinit n sc trace Hck Hd e k s Hobs Hk Hg.
+  pose proof (faithful_final sy nm v 0 rho0 frees sigma0 Hwf Hn (fun _ => Hinit)) as F.
+  cbn zeta in F. fold n sc trace in F. specialize (F Hck).
+  assert (Hd' : forall nm' t e0 k0, In (DeclareConst nm' t) sc -> 0 <= k0 <= 0 + N.of_nat n ->
+                 sig_sym (enc_new sy nm) e0 k0 = Some (mk_sym nm' t) ->
+                 same_val sigma0 (mk_sym nm' t) (nth (N.to_nat (k0 - 0)) trace env0) e0).
+  { intros nm' t e0 k0 Hin Hk0 Hs. rewrite N.sub_0_r. apply Hd; [assumption|lia|assumption]. }
+  specialize (F Hd' e k s Hobs ltac:(lia) Hg). cbv beta in F. replace (N.to_nat k) with (N.to_nat (k - 0)) by lia. exact F.
+Qed.
+
+Theorem bmc_no_miss v solver_sat :
+  (forall sc asserts assumps,
+      solver_sat sc asserts assumps = true <-> exists sigma0, is_model sc asserts assumps sigma0) ->
+  forall sy nm, sys_wf sy = true -> names_ok (enc_new sy nm) = true ->
+  (forall n, script_check [] (script v (enc_new sy nm) 0 n) = true) ->
+  forall k_max j, (j <= k_max)%nat -> reach_at sy j ->
+    bmc_model v solver_sat sy nm true k_max <> BmcSuccess.
+Proof.
+  intros Hsolver sy nm Hwf Hn Hck k_max j Hj Hr. unfold bmc_model.
+  destruct (s_bads sy) as [|b0 r0] eqn:Eb.
+  - destruct Hr as (trace & _ & _ & Hbad). unfold some_bad in Hbad. rewrite Eb in Hbad. discriminate.
+  - pose proof (bmc_no_miss_gen v solver_sat Hsolver sy nm Hwf Hn (script v (enc_new sy nm) 0) (script_S v (enc_new sy nm)) Hck
+                  (faithful_shape sy nm v Hwf Hn) k_max j Hj Hr ltac:(rewrite Eb; discriminate)) as H.
+    unfold script in H. cbn [unrolls] in H. rewrite app_nil_r in H. exact H.
+Qed.
 
 Theorem bmc_no_miss_final (solver_sat : list cmd -> list expr -> list expr -> bool) :
   (forall sc asserts assumps,
